@@ -111,6 +111,7 @@ type Exec struct {
 	pcTerms    []*Term
 	trail      []func()
 	epoch      int
+	storeCount int64 // heap stores so far on this path (progress detection for blocked threads)
 	pathEpoch  int
 	initMode   bool
 	globals    map[*ssa.Global]*Cell
@@ -1525,6 +1526,7 @@ func (ex *Exec) mapTrail(m *MapObj) {
 }
 
 func (ex *Exec) mapUpdate(mv Value, key, val Value) {
+	ex.storeCount++
 	m := mv.(MapV).m
 	if m == nil {
 		ex.goPanic("assignment to entry in nil map")
@@ -1543,6 +1545,7 @@ func (ex *Exec) mapUpdate(mv Value, key, val Value) {
 }
 
 func (ex *Exec) mapDelete(mv Value, key Value) {
+	ex.storeCount++
 	m := mv.(MapV).m
 	if m == nil {
 		return
